@@ -340,6 +340,12 @@ class Engine:
         raise Unsupported(f"`in` on {cont!r}")
 
     def set_binop(self, I, op, a, b):
+        if isinstance(op, ast.BitOr):
+            for x, y in ((a, b), (b, a)):
+                if isinstance(x, SSet) and isinstance(y, (set, frozenset)) and len(y) == 0:
+                    out = stamp(SSet(x.kind, member=x.member, name=x.name + "_u"))
+                    out.card = x.card
+                    return out
         raise Unsupported("set algebra")
 
     def list_concat(self, I, a, b):
@@ -717,6 +723,10 @@ class Engine:
             I.ctx.assume(z3.ForAll([j], z3.Implies(z3.And(j >= 0, j < seq.length), z3.Select(it.member, z3.Select(seq.arr, j)))))
             I.ctx.assume(z3.ForAll([j, k2], z3.Implies(z3.And(0 <= j, j < k2, k2 < seq.length),
                                                       z3.Select(seq.arr, j) != z3.Select(seq.arr, k2))))
+            # every member occurs in the enumeration (ghost position function)
+            posf = z3.Function(fresh_name("enumPos"), it.kind.sort, z3.IntSort())
+            m = z3.Const(fresh_name("m"), it.kind.sort)
+            I.ctx.assume(z3.ForAll([m], z3.Implies(z3.Select(it.member, m), z3.And(posf(m) >= 0, posf(m) < seq.length, z3.Select(seq.arr, posf(m)) == m))))
             I.ctx.ghost.setdefault("__set_enum__", {})[id(it)] = seq
             return seq.length, seq.get
         raise Unsupported(f"iteration over {it!r}")
